@@ -13,11 +13,12 @@ import icontract  # noqa: E402
 
 _SHADOW = {}  # id(table) -> (table, [ (parent, children, shifts) ])
 _INSTALLED = {}
-CONFIG = {"cap_rules": 60, "every": 10, "function_invariant": False}
+CONFIG = {"cap_rules": 60, "every": 10, "function_invariant": False, "suspend": 0}
 
 
 def reset():
     _SHADOW.clear()
+    _KEYS.clear()
 
 
 def shadow_of(table):
@@ -25,6 +26,17 @@ def shadow_of(table):
     if ent is None or ent[0] is not table:
         ent = (table, [])
         _SHADOW[id(table)] = ent
+    return ent[1]
+
+
+_KEYS = {}  # id(table) -> (table, [ForestRuleKey])
+
+
+def shadow_of_keys(table):
+    ent = _KEYS.get(id(table))
+    if ent is None or ent[0] is not table:
+        ent = (table, [])
+        _KEYS[id(table)] = ent
     return ent[1]
 
 
@@ -45,11 +57,16 @@ def reported(table, labels):
 
 
 def prev_function(self):
+    if CONFIG["suspend"]:
+        return None
     return dict(self.function)
 
 
 def fixed_point_and_monotone(self, rule_key, OLD):
     cx = base.ctx()
+    if CONFIG["suspend"]:
+        return True  # scratch tables built by the extractor while minimising
+    shadow_of_keys(self).append(rule_key)
     rules = shadow_of(self)
     rules.append((rule_key.parent, tuple(rule_key.children), tuple(rule_key.shifts)))
     n = len(rules)
